@@ -18,7 +18,7 @@ THEOREM_MODULES = []
 REQUIRED_THEOREMS = []
 if os.path.exists(os.path.join(vlib.LEAN_DIR, "Yarel", "Props", "C17.lean")):
     THEOREM_MODULES = ["Yarel.Props.C17", "Yarel.Props.SpecTraces"]
-    REQUIRED_THEOREMS = ["lines_parallel", "kind_class_roundtrip", "traceLines_one_per_active_call", "traceLines_innermost_first",
+    REQUIRED_THEOREMS = ["lines_parallel", "chunk_vectors_change_only_in_step", "kind_class_roundtrip", "traceLines_one_per_active_call", "traceLines_innermost_first",
                          "uncaught_outcome_is_error_with_trace"]
 USES_GEN = True
 LEVEL = "proof"
